@@ -23,7 +23,7 @@ def gen(c, S, L, quick):
 def run_job(args):
     base, k, job = args
     jf = os.path.join(base, "job%d.json" % k); json.dump(job, open(jf, "w"))
-    p = subprocess.run(["/venv/bin/python", WORKER, jf], env=dict(os.environ, PYTHONPATH="/repo", PYTHONDONTWRITEBYTECODE="1"), capture_output=True, text=True, timeout=1700)
+    p = subprocess.run(["/venv/bin/python", WORKER, jf], env=dict(os.environ, PYTHONPATH=os.environ.get("VERIF_REPO", "/repo"), PYTHONDONTWRITEBYTECODE="1"), capture_output=True, text=True, timeout=1700)
     if not os.path.exists(jf + ".out"): raise RuntimeError("zstream worker failed: " + p.stderr[-400:])
     return json.load(open(jf + ".out"))
 
